@@ -59,7 +59,7 @@ def tensor(data, requires_grad=False, dtype=None, device=None) -> 'Tensor':
     """
     Creates a Tensor from a numpy array
     """
-    data = np.array(data, dtype=default_type__)
+    data = np.array(data, dtype=dtype if dtype is not None else default_type__)
     return Tensor(data, requires_grad=requires_grad, dtype=dtype, device=device)
 
 def empty(*shape, dtype=None, requires_grad=False, name=None, device=None):
@@ -102,7 +102,7 @@ def arange(*interval, dtype=None, requires_grad=False, name=None, device=None):
     """
     Creates a Tensor filled with values in range
     """
-    return Tensor(np.arange(*interval, dtype=default_type__), dtype=dtype, requires_grad=requires_grad, name=name, device=device)
+    return Tensor(np.arange(*interval, dtype=dtype if dtype is not None else default_type__), dtype=dtype, requires_grad=requires_grad, name=name, device=device)
 
 def rand(*shape, dtype=None, requires_grad=False, name=None, device=None):
     """
@@ -110,7 +110,7 @@ def rand(*shape, dtype=None, requires_grad=False, name=None, device=None):
     """
     if len(shape) == 1 and isinstance(shape[0], (list, tuple)):
         shape = shape[0]
-    return Tensor(np.random.rand(*shape).astype(dtype=default_type__), dtype=dtype, requires_grad=requires_grad, name=name, device=device)
+    return Tensor(np.asarray(np.random.rand(*shape)).astype(dtype if dtype is not None else default_type__), dtype=dtype, requires_grad=requires_grad, name=name, device=device)
 
 def randn(*shape, dtype=None, requires_grad=False, name=None, device=None):
     """
@@ -118,13 +118,13 @@ def randn(*shape, dtype=None, requires_grad=False, name=None, device=None):
     """
     if len(shape) == 1 and isinstance(shape[0], (list, tuple)):
         shape = shape[0]
-    return Tensor(np.random.randn(*shape).astype(dtype=default_type__), dtype=dtype, requires_grad=requires_grad, name=name, device=device)
+    return Tensor(np.asarray(np.random.randn(*shape)).astype(dtype if dtype is not None else default_type__), dtype=dtype, requires_grad=requires_grad, name=name, device=device)
 
 def normal(loc, scale, *shape, dtype=None, requires_grad=False, name=None, device=None):
     """
     Creates a Tensor filled with values drawn from a custom Gaussian distribution
     """
-    return Tensor(np.random.normal(loc, scale, shape).astype(dtype=default_type__), dtype=dtype, requires_grad=requires_grad, name=name, device=device)
+    return Tensor(np.random.normal(loc, scale, shape).astype(dtype if dtype is not None else default_type__), dtype=dtype, requires_grad=requires_grad, name=name, device=device)
 
 def randint(low, high, shape:tuple, dtype=None, requires_grad=False, name=None, device=None):
     """
@@ -176,7 +176,7 @@ class Tensor:
             data = np.asarray(data) # numpy scalars (0-d results of reductions, indexing) keep their dtype
         if not isinstance(data, np.ndarray):
             try:
-                data = np.array(data, dtype=default_type__)
+                data = np.array(data, dtype=dtype if dtype is not None else default_type__)
             except: 
                 raise RuntimeError("data must be convertible into a numpy array")
         if dtype is not None and data.dtype != dtype: data = data.astype(dtype)
